@@ -58,26 +58,19 @@ def there_follows(ctx):
             continue
         if p.end != "return":
             continue
-        ma = re.match(r"^Iterator::all\(Iterator::enumerate\(%s\), closure (.*)\[a1\]\)$" % re.escape(CH), strip_ver(r))
-        if ma and len(gs0) == 1:
-            # the comparison loop written as `s.iter().enumerate().all(|(i, c)| pattern[idx + i] == *c)`: by the
-            # meaning of `all` the answer is true iff every comparison holds and false at the first that does not
-            cb = ctx.body(RC + "there_follows::{closure#0}")
-            rs = {strip_ver(render(q.ret)) for q in ctx.walk(cb).paths} if cb is not None else set()
-            good = rs in ({"eq(a2.1, a1.0.pattern[add(a2.0, a1.0.idx)])"}, {"eq(a1.0.pattern[add(a2.0, a1.0.idx)], a2.1)"}, {"eq(a2.1, a1.0.pattern[add(a1.0.idx, a2.0)])"}, {"eq(a1.0.pattern[add(a1.0.idx, a2.0)], a2.1)"})
-            for k in ("true-after-all-equal", "false-on-mismatch", "compares-same-index"):
-                _rec(d, k, good, "the look-ahead is `all` over the characters of s, but its predicate is not pattern[idx+i] == s[i]; found %s" % sorted(rs), loc)
-            continue
-        mz = re.match(r"^Iterator::all\(Iterator::zip\((.*), (.*)\), closure (.*)\[\]\)$", strip_ver(r))
-        if mz and len(gs0) == 1:
-            # `pattern[idx..idx + n].iter().zip(s).all(|(a, b)| a == b)`: the two sequences are compared position by position
-            sl = "a1.pattern[Range::Range{start: a1.idx, end: add(a1.idx, len(%s))}]" % CH
-            pair = {mz.group(1), mz.group(2)} == {sl, CH}
-            cb = ctx.body(RC + "there_follows::{closure#0}")
-            rs = {strip_ver(render(q.ret)) for q in ctx.walk(cb).paths} if cb is not None else set()
-            good = pair and rs in ({"eq(a2.0, a2.1)"}, {"eq(a2.1, a2.0)"})
-            for k in ("true-after-all-equal", "false-on-mismatch", "compares-same-index"):
-                _rec(d, k, good, "the look-ahead zips %s with %s under the predicate %s; expected pattern[idx..idx+|s|] against s under equality" % (mz.group(1)[:60], mz.group(2)[:40], sorted(rs)), loc)
+        # `pattern[idx..idx + n].iter().zip(s)` driven by a loop (or by `all`, which the normaliser turns into the
+        # loop): the two sequences are compared position by position
+        sl = "a1.pattern[Range::Range{start: a1.idx, end: add(a1.idx, len(%s))}]" % CH
+        ZN = ("<Zip<A, B> as Iterator>::next(Iterator::zip(%s, %s))" % (sl, CH), "<Zip<A, B> as Iterator>::next(Iterator::zip(%s, %s))" % (CH, sl))
+        zc = [g for g in gs0 if re.match(r"^!?eq\(", g) and "Iterator::zip(" in g]
+        if zc:
+            if r == "true":
+                _rec(d, "true-after-all-equal", gs0[-1].endswith("=None") and all(not g.startswith("!") for g in zc), "true may be answered only after every pair compared equal (iterator exhausted); guards %s" % gs0[-2:], loc)
+            elif r == "false":
+                _rec(d, "false-on-mismatch", zc[-1].startswith("!"), "false must follow a mismatching character", loc)
+            for g in zc:
+                g1 = g.lstrip("!")
+                _rec(d, "compares-same-index", any(g1 in ("eq(%s as Some.0.0, %s as Some.0.1)" % (z, z), "eq(%s as Some.0.1, %s as Some.0.0)" % (z, z)) for z in ZN), "the look-ahead must compare pattern[idx..idx+|s|] with s pairwise; found %s" % g[:200], loc)
             continue
         cmps = [g for g in gs0 if re.match(r"^!?eq\(", g) and "a1.pattern[add(a1.idx, " in g]
         if r == "true":
